@@ -2,6 +2,8 @@
 
 package lint
 
+import "github.com/zmap/zcrypto/x509"
+
 // VerifGate is installed by verification harnesses (build tag "verif") to observe, and between
 // lock-free points to order, the framework's steps. It is nil unless a harness sets it.
 var VerifGate func(point string, name string)
@@ -14,3 +16,13 @@ func verifGate(point string, name string) {
 
 // VerifPoint lets the root package report its own steps through the same gate.
 func VerifPoint(point string, name string) { verifGate(point, name) }
+
+// VerifObserve is installed by verification harnesses to see the outcome of every certificate lint execution
+// (whoever calls Execute: the library, the tool, the repository's own tests). It is nil unless a harness sets it.
+var VerifObserve func(meta *LintMetadata, cert *x509.Certificate, config Configuration, result *LintResult)
+
+func verifObserve(meta *LintMetadata, cert *x509.Certificate, config Configuration, result **LintResult) {
+	if f := VerifObserve; f != nil {
+		f(meta, cert, config, *result)
+	}
+}
